@@ -332,6 +332,10 @@ func (vc *VC) callEffect(ci *callInfo, fc *FuncContract) {
 			}
 		}
 	}
+	if fc != nil && fc.Blocks {
+		// the caller is suspended: other goroutines make progress, every shared ghost component may change
+		post.havocGhst = true
+	}
 	ak := vc.allocKey()
 	inferred := (fc == nil || !fc.HasMod) && ci.fn != nil && vc.P.InRepo(FuncPkgPath(ci.fn)) && vc.inferPure(ci.fn)
 	switch {
@@ -341,7 +345,7 @@ func (vc *VC) callEffect(ci *callInfo, fc *FuncContract) {
 		if fc.Allocates {
 			post.havocKeys[ak] = true
 		}
-		if len(post.havocKeys) == 0 {
+		if len(post.havocKeys) == 0 && !post.havocGhst {
 			return
 		}
 	case fc != nil && fc.HasMod:
@@ -460,6 +464,64 @@ func (vc *VC) reachableLocalHavoc(ci *callInfo, fc *FuncContract, param string, 
 	return true
 }
 
+// tryTrBool translates a clause; ok is false when it mentions identifiers unknown in this environment.
+func (vc *VC) tryTrBool(e Expr, env *specEnv, c *Clause) (g string, ok bool) {
+	defer func() {
+		if r := recover(); r != nil {
+			if ge, isGen := r.(genErr); isGen && strings.Contains(string(ge), "unknown identifier") {
+				g, ok = "", false
+				return
+			}
+			panic(r)
+		}
+	}()
+	return vc.trBool(e, env, c), true
+}
+
+// ordinalOf: the 1-based ordinal of an operation among the operations of the same name in the function, in
+// source (block index, instruction) order, so that "site f#2" does not depend on the processing order.
+func (vc *VC) ordinalOf(ins ssa.Instruction, name string) int {
+	if vc.staticOrd == nil {
+		vc.staticOrd = map[ssa.Instruction]int{}
+		counts := map[string]int{}
+		for _, b := range vc.fn.Blocks {
+			for _, x := range b.Instrs {
+				var n string
+				switch x := x.(type) {
+				case ssa.CallInstruction:
+					c := x.Common()
+					if _, isB := c.Value.(*ssa.Builtin); isB {
+						continue
+					}
+					n, _ = vc.calleeName(c)
+					if mc, ok := c.Value.(*ssa.MakeClosure); ok {
+						n = CanonName(mc.Fn.(*ssa.Function))
+					}
+					if _, isDefer := x.(*ssa.Defer); isDefer {
+						n = "defer:" + n
+					}
+				case *ssa.UnOp:
+					if x.Op != token.ARROW {
+						continue
+					}
+					n = "recv"
+				case *ssa.Send:
+					n = "send"
+				default:
+					continue
+				}
+				counts[n]++
+				vc.staticOrd[x] = counts[n]
+			}
+		}
+	}
+	if o, ok := vc.staticOrd[ins]; ok {
+		return o
+	}
+	vc.callOrd[name]++
+	return vc.callOrd[name]
+}
+
 func sortOfKey(m keyMeta) string {
 	// "(Array Int X)" -> X
 	s := strings.TrimPrefix(m.Sort, "(Array Int ")
@@ -531,6 +593,20 @@ func (vc *VC) callFrameCheck(ci *callInfo, fc *FuncContract) {
 				bad = append(bad, "callee "+ci.name+" updates "+u.Ghost.Name)
 			}
 		}
+		// thread-local ghost variables the callee talks about must be accounted for by the caller's own contract
+		gn := map[string]bool{}
+		for _, e := range fc.Ensures {
+			vc.ghostNamesIn(e.Expr, gn)
+		}
+		mine := map[string]bool{}
+		for _, e := range vc.fc.Ensures {
+			vc.ghostNamesIn(e.Expr, mine)
+		}
+		for g := range gn {
+			if gd, ok := vc.C.Ghosts[g]; ok && gd.Kind == "var" && !gd.Scratch && !mine[g] && !has(g) {
+				bad = append(bad, "callee "+ci.name+" may change ghost variable "+g+", which the contract of "+shortName(vc.Name)+" does not mention")
+			}
+		}
 	}
 	for _, b := range bad {
 		o := vc.oblige("frame", "call/"+shortName(ci.name), "false", vc.fc.allTags(), ci.pos, nil)
@@ -541,11 +617,13 @@ func (vc *VC) callFrameCheck(ci *callInfo, fc *FuncContract) {
 // applyCall encodes one call: obligations for the callee's pre-condition and site clauses, the state
 // change, and the assumed post-condition. It returns the result terms.
 func (vc *VC) applyCall(ci *callInfo) []string {
-	vc.callOrd[ci.name]++
-	ord := vc.callOrd[ci.name]
+	ord := vc.ordinalOf(ci.instr, ci.name)
 	fc := vc.C.Funcs[ci.name]
 	if fc == nil && ci.fn != nil && ci.fn.Origin() != nil {
 		fc = vc.C.Funcs[CanonName(ci.fn.Origin())]
+	}
+	if fc == nil {
+		fc = vc.fnspecFor(ci.name)
 	}
 	if fc != nil && (fc.External || fc.Trusted) {
 		vc.usedContracts[ci.name] = true
@@ -613,7 +691,10 @@ func (vc *VC) applyCall(ci *callInfo) []string {
 		env := vc.calleeEnv(ci, fc, vc.st, pre)
 		vc.bindCallResults(env, ci, res)
 		for _, e := range fc.Ensures {
-			g := vc.trBool(e.Expr, env, e)
+			g, ok := vc.tryTrBool(e.Expr, env, e)
+			if !ok {
+				continue // the clause speaks about the callee's local variables: internal to its own proof
+			}
 			if ci.guard != "" {
 				g = fmt.Sprintf("(=> %s %s)", ci.guard, g)
 			}
@@ -718,7 +799,8 @@ func (vc *VC) siteClausesAt(name string, ord int, phase string, args map[string]
 			if guard != "" {
 				g = fmt.Sprintf("(=> %s %s)", guard, g)
 			}
-			vc.oblige("site", fmt.Sprintf("%s#%d/ensures.%d%s", c.Site, ord, c.Index, tagSuffix(c.Tags)), g, c.Tags, pos, c)
+			vc.oblige("site", fmt.Sprintf("%s#%d/ensures.%d%s", c.Site, ord, c.Index, tagSuffix(c.Tags)), g, mergeTags(c.Tags, vc.tagsOfFunc()), pos, c)
+			vc.assume(g) // assert-then-assume: later obligations may use the checked fact
 		}
 	}
 	return matched
@@ -892,13 +974,13 @@ func (vc *VC) appendBuiltin(ins *ssa.Call) {
 	row := vc.freshConst("approw", "(Array Int "+sortOf(et)+")")
 	es := sortOf(et)
 	_ = es
-	vc.assert(fmt.Sprintf("(forall ((i Int)) (! (=> (and (<= 0 i) (< i (sl_len %s))) (= (select %s i) (select (select %s (sl_arr %s)) (+ (sl_off %s) i)))) :pattern ((select %s i))))",
+	vc.assert(fmt.Sprintf("(forall ((i Int)) (! (=> (and (<= 0 i) (< i (sl_len %s))) (= (select %s i) (select (select %s (sl_arr %s)) (idx (sl_off %s) i)))) :pattern ((select %s i))))",
 		s, row, old, s, s, row))
 	if !tIsString {
-		vc.assert(fmt.Sprintf("(forall ((i Int)) (! (=> (and (<= 0 i) (< i %s)) (= (select %s (+ (sl_len %s) i)) (select (select %s (sl_arr %s)) (+ (sl_off %s) i)))) :pattern ((select %s (+ (sl_len %s) i)))))",
+		vc.assert(fmt.Sprintf("(forall ((i Int)) (! (=> (and (<= 0 i) (< i %s)) (= (select %s (+ (sl_len %s) i)) (select (select %s (sl_arr %s)) (idx (sl_off %s) i)))) :pattern ((select %s (+ (sl_len %s) i)))))",
 			tl, row, s, old, t, t, row, s))
 		// the common single-element case, instantiated explicitly
-		vc.assert(fmt.Sprintf("(=> (>= %s 1) (= (select %s (sl_len %s)) (select (select %s (sl_arr %s)) (sl_off %s))))", tl, row, s, old, t, t))
+		vc.assert(fmt.Sprintf("(=> (>= %s 1) (= (select %s (sl_len %s)) (select (select %s (sl_arr %s)) (idx (sl_off %s) 0))))", tl, row, s, old, t, t))
 	}
 	vc.st.set(k, vc.storeT(old, arr, row))
 }
@@ -906,27 +988,125 @@ func (vc *VC) appendBuiltin(ins *ssa.Call) {
 // ---- closures ---------------------------------------------------------------------------------
 
 func (vc *VC) makeClosure(ins *ssa.MakeClosure) {
-	r := vc.newRef(ins)
 	fn := ins.Fn.(*ssa.Function)
-	vc.assert(fmt.Sprintf("(= (clofn %s) %s)", r, vc.val(fn)))
+	fc := vc.C.Funcs[CanonName(fn)]
+	// Pre-conditions of the closure that consist of monotone facts over captured variables are stable, so
+	// they are checked where the closure is created (whoever calls it later may rely on them).
+	if fc != nil {
+		for _, rq := range fc.Requires {
+			if !vc.onlyMonoFacts(rq.Expr) {
+				vc.usedContracts["unchecked entry condition of closure "+shortName(CanonName(fn))+": "+rq.Text] = true
+				continue
+			}
+			env := vc.newEnv(vc.st, vc.st, fc.Pkg)
+			for i, fv := range fn.FreeVars {
+				env.freeCells[fv.Name()] = sval{term: vc.val(ins.Bindings[i]), typ: fv.Type()}
+			}
+			g := vc.trBool(rq.Expr, env, rq)
+			vc.oblige("closure-pre", fmt.Sprintf("%s/requires.%d%s", shortName(CanonName(fn)), rq.Index, tagSuffix(rq.Tags)), g, mergeTags(rq.Tags, vc.tagsOfFunc()), ins.Pos(), rq)
+		}
+	}
+	r := vc.newRef(ins)
+	id := vc.funcID(fn)
+	vc.assert(fmt.Sprintf("(= (clofn %s) %d)", r, id))
 	cr := &closureRec{val: r, fn: fn, mc: ins}
 	for i, b := range ins.Bindings {
 		bv := vc.val(b)
 		cr.vals = append(cr.vals, bv)
 		f := vc.declareFun(fmt.Sprintf("clobind!%d", i), []string{"Int"}, "Int")
 		vc.assert(fmt.Sprintf("(= (%s %s) %s)", f, r, bv))
+		// value of the captured variable when the closure was made
+		ct := deref(fn.FreeVars[i].Type())
+		if _, isStruct := structOf(ct); !isStruct {
+			cf := vc.captFun(fn, i)
+			vc.assert(fmt.Sprintf("(= (%s %s) (select %s %s))", cf, r, vc.st.get(vc.cellKey(ct)), bv))
+		}
 	}
 	vc.closures = append(vc.closures, cr)
+	vc.captureStable(ins, fn, fc)
 }
 
-// closureFacts: for closures made in this function whose contract promises monotone facts on nil return,
-// "returnedNil(c) ==> facts" (the facts are stable, so they hold whenever we look).
+func (vc *VC) captFun(fn *ssa.Function, i int) string {
+	res := sortOf(deref(fn.FreeVars[i].Type()))
+	return vc.declareFun(fmt.Sprintf("capt!%s!%s", shortName(CanonName(fn)), fn.FreeVars[i].Name()), []string{"Int"}, res)
+}
+
+// captureStable: the closure axiom "returnedNil(c) ==> facts(captured values)" needs the captured variables
+// to keep the value they had when the closure was made: no store to their cells after the MakeClosure in
+// the parent and none inside the closure.
+func (vc *VC) captureStable(ins *ssa.MakeClosure, fn *ssa.Function, fc *FuncContract) {
+	if fc == nil {
+		return
+	}
+	need := false
+	for _, e := range fc.Ensures {
+		if vc.isNilImpliesMono(e.Expr) {
+			need = true
+		}
+	}
+	if !need {
+		return
+	}
+	var bad []string
+	for i, b := range ins.Bindings {
+		al, ok := b.(*ssa.Alloc)
+		if !ok {
+			continue // a free variable of the parent itself: its stability is the parent's parent's concern
+		}
+		for _, ref := range *al.Referrers() {
+			st, ok := ref.(*ssa.Store)
+			if !ok || st.Addr != al {
+				continue
+			}
+			if st.Block() == ins.Block() {
+				after := false
+				for _, x := range st.Block().Instrs {
+					if x == ssa.Instruction(ins) {
+						after = true
+					}
+					if x == ssa.Instruction(st) && after {
+						bad = append(bad, fn.FreeVars[i].Name())
+					}
+				}
+			} else if !st.Block().Dominates(ins.Block()) {
+				bad = append(bad, fn.FreeVars[i].Name())
+			}
+		}
+		for _, ref := range *fn.FreeVars[i].Referrers() {
+			if st, ok := ref.(*ssa.Store); ok && st.Addr == fn.FreeVars[i] {
+				bad = append(bad, fn.FreeVars[i].Name())
+			}
+		}
+	}
+	if len(bad) > 0 {
+		o := vc.oblige("closure-capture-stable", shortName(CanonName(fn)), "false", vc.tagsOfFunc(), ins.Pos(), nil)
+		o.Detail["why"] = "captured variable(s) reassigned after the closure was made: " + strings.Join(bad, ", ")
+	}
+}
+
+// closureFacts: for every closure function F made in this function whose contract promises monotone facts
+// on a nil return: forall c. clofn(c) = F && returnedNil(c) ==> facts(values captured by c). The facts are
+// stable, so the implication holds whenever we look (it is re-stated for the current fact tables).
 func (vc *VC) closureFacts() {
 	key, _, ok := vc.ghostKey("returnedNil")
 	if !ok {
 		return
 	}
-	for _, cr := range vc.closures {
+	seen := map[*ssa.Function]bool{}
+	// every closure function made anywhere in this function (block processing order is not execution order)
+	var made []*closureRec
+	for _, b := range vc.fn.Blocks {
+		for _, ins := range b.Instrs {
+			if mc, ok := ins.(*ssa.MakeClosure); ok {
+				made = append(made, &closureRec{fn: mc.Fn.(*ssa.Function), mc: mc})
+			}
+		}
+	}
+	for _, cr := range made {
+		if seen[cr.fn] {
+			continue
+		}
+		seen[cr.fn] = true
 		fc := vc.C.Funcs[CanonName(cr.fn)]
 		if fc == nil {
 			continue
@@ -935,13 +1115,21 @@ func (vc *VC) closureFacts() {
 			if !vc.isNilImpliesMono(e.Expr) {
 				continue
 			}
-			env := vc.envAt(vc.st, vc.st)
+			env := vc.newEnv(vc.st, vc.st, fc.Pkg)
+			ok := true
 			for i, fv := range cr.fn.FreeVars {
-				env.freeCells[fv.Name()] = sval{term: cr.vals[i], typ: fv.Type()}
+				ct := deref(fv.Type())
+				if _, isStruct := structOf(ct); isStruct {
+					ok = false
+					continue
+				}
+				env.vars[fv.Name()] = sval{term: fmt.Sprintf("(%s cq)", vc.captFun(cr.fn, i)), typ: ct}
 			}
+			_ = ok
 			env.vars["result"] = sval{term: "0", typ: types.Universe.Lookup("error").Type()}
 			body := vc.trBool(e.Expr, env, e)
-			vc.assume(fmt.Sprintf("(=> (select %s %s) %s)", vc.st.get(key), cr.val, body))
+			rn := vc.st.get(key)
+			vc.assume(fmt.Sprintf("(forall ((cq Int)) (! (=> (and (= (clofn cq) %d) (select %s cq)) %s) :pattern ((select %s cq))))", vc.funcID(cr.fn), rn, body, rn))
 		}
 	}
 }
@@ -1002,9 +1190,29 @@ func (vc *VC) deferStmt(ins *ssa.Defer) {
 }
 
 func (vc *VC) runDefers(ins *ssa.RunDefers) {
-	// deferred calls run last-registered first. Registration order along any path is block order.
+	// Deferred calls run last-registered first. Defers outside loops were processed earlier (any block from
+	// which this one is reachable without a back edge precedes it); defers inside a loop are summarised by
+	// the function's deferrule whenever control may have been through that loop.
+	var loopDefers []*ssa.Defer
+	for _, b := range vc.fn.Blocks {
+		for _, x := range b.Instrs {
+			if d, ok := x.(*ssa.Defer); ok {
+				if li := vc.loopOf(b); li != nil && (li.header.Dominates(vc.cur) || li.blocks[vc.cur]) {
+					loopDefers = append(loopDefers, d)
+				}
+			}
+		}
+	}
+	for i := len(loopDefers) - 1; i >= 0; i-- {
+		ci := vc.mkCallInfo(loopDefers[i].Common(), loopDefers[i], nil, "deferred-loop")
+		ci.pos = ins.Pos()
+		vc.deferLoopRule(ci)
+	}
 	for i := len(vc.deferred) - 1; i >= 0; i-- {
 		d := vc.deferred[i]
+		if d.inLoop {
+			continue
+		}
 		r := vc.reach[d.block]
 		if r == "" {
 			continue
@@ -1015,13 +1223,6 @@ func (vc *VC) runDefers(ins *ssa.RunDefers) {
 		ci.pos = ins.Pos()
 		if r != "true" {
 			ci.guard = r
-		}
-		if d.inLoop {
-			// registrations from earlier iterations are summarised by the function's deferrule
-			ci.guard = ""
-			ci.kind = "deferred-loop"
-			vc.deferLoopRule(&ci)
-			continue
 		}
 		vc.applyCall(&ci)
 	}
@@ -1043,15 +1244,22 @@ func (vc *VC) deferLoopRule(ci *callInfo) {
 	reg, ran := strings.TrimSpace(parts[0]), strings.TrimSpace(parts[1])
 	kReg, gdReg, ok1 := vc.ghostKey(reg)
 	kRan, gdRan, ok2 := vc.ghostKey(ran)
-	if !ok1 || !ok2 || gdReg.Kind != "fact" || gdRan.Kind != "fact" || len(gdReg.Params) != len(gdRan.Params) {
-		vc.fail("deferrule needs two ghost facts of equal arity")
+	if !ok1 || !ok2 || (gdReg.Kind != "fact" && !(gdReg.Kind == "table" && gdReg.Result == "bool")) || gdRan.Kind != "fact" || len(gdReg.Params) != len(gdRan.Params) {
+		vc.fail("deferrule needs a registration fact/table and a fact of equal arity")
 	}
-	// the deferred calls are unknown code: heap and ghost are weakened, then registered ==> ran
+	// every registered call runs now: the state changes as the deferred callee's contract allows (any number
+	// of times), then registered ==> ran
 	regT := vc.st.get(kReg)
-	vc.st = vc.st.derive()
-	vc.st.havocHeap = true
-	vc.st.havocGhst = true
-	vc.st.havocKeys = map[string]bool{vc.allocKey(): true}
+	dfc := vc.C.Funcs[ci.name]
+	if dfc != nil && (dfc.External || dfc.Trusted) {
+		vc.usedContracts[ci.name] = true
+	}
+	sub := *ci
+	sub.guard = ""
+	vc.callEffect(&sub, dfc)
+	if vc.st.prev != nil {
+		vc.st.havocKeys[kRan] = true
+	}
 	ranT := vc.st.get(kRan)
 	var bs, idx []string
 	for i := range gdReg.Params {
@@ -1138,4 +1346,120 @@ func (vc *VC) updatesCheck(ins *ssa.Return, retEnv *specEnv) {
 	}
 }
 
-func (vc *VC) fnspecReturn(ins *ssa.Return) {}
+// fnspecFor resolves the contract of a call through a function value whose origin declares a fnspec:
+// "$dyn:result:<F>" (value returned by F), "$dyn:result.N:<F>", "$dyn:<param>" (parameter of this function).
+func (vc *VC) fnspecFor(name string) *FuncContract {
+	if !strings.HasPrefix(name, "$dyn:") {
+		return nil
+	}
+	rest := name[5:]
+	idx := 0
+	switch {
+	case strings.HasPrefix(rest, "result:"):
+		rest = rest[7:]
+	case strings.HasPrefix(rest, "result."):
+		j := strings.Index(rest, ":")
+		if j < 0 {
+			return nil
+		}
+		fmt.Sscanf(rest[7:j], "%d", &idx)
+		rest = rest[j+1:]
+	default:
+		if vc.fc != nil && vc.fc.ParamSpec != nil {
+			if sp, ok := vc.fc.ParamSpec[rest]; ok {
+				return vc.C.Funcs["$fnspec."+sp]
+			}
+		}
+		return nil
+	}
+	fc := vc.C.Funcs[rest]
+	if fc == nil || fc.ResultSpec == nil {
+		return nil
+	}
+	if sp, ok := fc.ResultSpec[idx]; ok {
+		return vc.C.Funcs["$fnspec."+sp]
+	}
+	return nil
+}
+
+// fnspecReturn: a function that declares "result fnspec S" must return only functions that implement S.
+func (vc *VC) fnspecReturn(ins *ssa.Return) {
+	if vc.fc == nil || vc.fc.ResultSpec == nil {
+		return
+	}
+	for i, rv := range ins.Results {
+		sp, ok := vc.fc.ResultSpec[i]
+		if !ok {
+			continue
+		}
+		for _, v := range funcSources(rv, map[ssa.Value]bool{}) {
+			var f *ssa.Function
+			switch x := v.(type) {
+			case *ssa.MakeClosure:
+				f = x.Fn.(*ssa.Function)
+			case *ssa.Function:
+				f = x
+			}
+			okImpl := false
+			if f != nil {
+				if c := vc.C.Funcs[CanonName(f)]; c != nil && !c.Trusted {
+					for _, im := range c.Implements {
+						if im == sp {
+							okImpl = true
+						}
+					}
+					if okImpl {
+						// conditions under which f meets the spec (its own requires) must hold where it is returned
+						env := vc.newEnv(vc.st, vc.st, c.Pkg)
+						if mc, isClo := v.(*ssa.MakeClosure); isClo {
+							for i, fv := range f.FreeVars {
+								env.freeCells[fv.Name()] = sval{term: vc.val(mc.Bindings[i]), typ: fv.Type()}
+							}
+						}
+						for _, rq := range c.OwnRequires {
+							g := vc.trBool(rq.Expr, env, rq)
+							vc.oblige("fnspec-binding", fmt.Sprintf("%s/%s/requires.%d", sp, shortName(CanonName(f)), rq.Index), g, vc.fc.allTags(), ins.Pos(), rq)
+						}
+					}
+				}
+			}
+			if !okImpl {
+				o := vc.oblige("fnspec-binding", sp, "false", vc.fc.allTags(), ins.Pos(), nil)
+				what := "a value of unknown origin"
+				if f != nil {
+					what = CanonName(f) + " (no verified 'implements " + sp + "' contract)"
+				}
+				o.Detail["why"] = "returns " + what + " where fnspec " + sp + " is promised"
+			}
+		}
+	}
+}
+
+func funcSources(v ssa.Value, seen map[ssa.Value]bool) []ssa.Value {
+	if seen[v] {
+		return nil
+	}
+	seen[v] = true
+	switch x := v.(type) {
+	case *ssa.Phi:
+		var out []ssa.Value
+		for _, e := range x.Edges {
+			out = append(out, funcSources(e, seen)...)
+		}
+		return out
+	case *ssa.ChangeType:
+		return funcSources(x.X, seen)
+	case *ssa.UnOp:
+		// load of the named-result cell: look at what was stored there
+		if al, ok := x.X.(*ssa.Alloc); ok {
+			var out []ssa.Value
+			for _, ref := range *al.Referrers() {
+				if st, ok := ref.(*ssa.Store); ok && st.Addr == al {
+					out = append(out, funcSources(st.Val, seen)...)
+				}
+			}
+			return out
+		}
+	}
+	return []ssa.Value{v}
+}
